@@ -86,6 +86,8 @@ class ObjModel:
                         continue
                     if self.is_mutator(c.path):
                         continue            # composed by effect()
+                    if self._nested_target(c, ('arg', 1, g.names.get(1))) is not None:
+                        continue            # a mutator of an embedded object: composed by effect(); its validation mirrors the embedded constructor's
                     h = self.prog.func(c.path)
                     if h is None or not h.cfg.returns or not self._is_validator(h):
                         continue
@@ -134,9 +136,11 @@ class ObjModel:
         for c in g.calls():
             if c.path and c.path in self.prog.pdb.bodies and self.is_mutator(c.path) and c.args and self._is_self(c.args[0], me):
                 events.append((rpo.get(c.bb, 0), 10 ** 6, 'call', c))
+            elif c.path and c.args and c.argtys and self._nested_target(c, me) is not None:
+                events.append((rpo.get(c.bb, 0), 10 ** 6, 'nested', c))
             elif c.path and c.args and c.argtys:
-                # a field of self handed out `&mut` (an embedded object retuned through its own setter, a buffer filled by a callee): the
-                # field is modified in place by something this model does not compose
+                # a field of self handed out `&mut` (a buffer filled by a callee, an embedded object changed by something that is not one of
+                # its own mutators): the field is modified in place by something this model does not compose
                 for a_, ty_ in zip(c.args, c.argtys):
                     r_ = a_
                     while tag(r_) in ('field', 'index', 'deref'):
@@ -191,6 +195,41 @@ class ObjModel:
                     pass
                 else:
                     e.undec = e.undec or 'whole-object store of %s not read' % show(v)[:50]
+            elif kind == 'nested':
+                # `self.sampler.set_alpha(v)`: a mutator of the embedded object's own type applied to field k.  The field becomes a literal of
+                # that type whose components are the mutator's final terms, the untouched ones marked as "what field k held before"
+                c = x
+                k_ = self._nested_target(c, me)
+                subm = self._sub_model(k_)
+                h = self.prog.func(c.path)
+                if subm is None or h is None:
+                    e.undec = e.undec or 'embedded object %s changed by %s, whose type is not modelled' % (k_, short(c.path))
+                    continue
+                he = subm.effect(h, depth + 1)
+                e.bodies += [b for b in he.bodies if b not in e.bodies]
+                if he.undec or he.partial or he.opaque:
+                    e.undec = e.undec or '%s on field %s: %s' % (short(c.path), k_, he.undec or 'conditional writes')
+                    continue
+                hme = ('arg', 1, h.names.get(1))
+                prev = state.get(k_, ('field', me, k_, self.sm.fields[k_]['ty']))
+                mapping = {('arg', j + 1, h.names.get(j + 1)): sub(a) for j, a in enumerate(c.args) if j >= 1}
+
+                def trn(t, mapping=mapping, hme=hme, prev=prev):
+                    def f_(n):
+                        if n in mapping:
+                            return mapping[n]
+                        if tag(n) == 'field' and n[1] == hme:
+                            return fold(('field', prev, n[2], n[3]))
+                        return n
+                    return map_term(t, f_)
+                comps = []
+                for j in range(subm.sm.nfields):
+                    if j in he.state:
+                        comps.append(trn(he.state[j]))
+                    else:
+                        comps.append(fold(('field', prev, j, subm.sm.fields[j]['ty'])))
+                state[k_] = ('agg', 'adt', subm.path, tuple(comps))
+                e.nested = getattr(e, 'nested', set()) | {k_}
             else:
                 c = x
                 h = self.prog.func(c.path)
@@ -216,6 +255,7 @@ class ObjModel:
                 for fi, v in he.state.items():
                     state[fi] = tr(v)
                 e.partial |= set(getattr(he, 'partial', set()))
+                e.nested = getattr(e, 'nested', set()) | set(getattr(he, 'nested', set()))
                 for gd in he.guards:
                     guards.append(gmap(gd, tr))
                 for oc in he.opaque:
@@ -229,6 +269,74 @@ class ObjModel:
             if gd not in e.guards:
                 e.guards.append(gd)
         return e
+
+    def _nested_target(self, c, me):
+        """index k when call c applies a mutator of field k's own (modelled) type to `&mut self.k`; None otherwise"""
+        if not (c.path in self.prog.pdb.bodies and c.args and c.argtys and str(c.argtys[0]).startswith('&mut')):
+            return None
+        a0 = c.args[0]
+        while tag(a0) == 'deref':
+            a0 = a0[1]
+        if not (tag(a0) == 'field' and a0[1] == me and isinstance(a0[2], int) and a0[2] < self.sm.nfields):
+            return None
+        b = self.prog.pdb.bodies[c.path]
+        ty = str(self.sm.fields[a0[2]]['ty'])
+        if b.impl and b.impl['self_ty'] == ty and ty in self.prog.pdb.adts and ty != self.path:
+            return a0[2]
+        return None
+
+    def _sub_model(self, k):
+        """ObjModel of the type of field k (an embedded distribution), or None"""
+        if not hasattr(self, '_subs'):
+            self._subs = {}
+        ty = str(self.sm.fields[k]['ty'])
+        if ty not in self._subs:
+            m = None
+            try:
+                from .structs import StructModel
+                smk = StructModel(self.prog, ty)
+                if smk.new is not None and smk.inits is not None:
+                    m = ObjModel(self.prog, smk)
+            except Exception:
+                m = None
+            self._subs[ty] = m
+        return self._subs[ty]
+
+    def nested_coherent(self, k, got, want):
+        """is the literal `got` (field k after mutators of its own type, untouched components marked field(prev, j)) the object `want`
+        = T::new(args) that new() stores?  (True, '') / (False, why) / (None, why-not-read).  An untouched component is right when the
+        constructor's initialiser for it does not depend on T::new's arguments at all, or only on arguments that are constants in `want`
+        (by induction the previous object was T::new of the previous arguments, which agree there)."""
+        sub = self._sub_model(k)
+        want = strip_sites(want)
+        if sub is None:
+            return None, 'type of the embedded object not modelled'
+        if not (tag(got) == 'agg' and got[1] == 'adt' and got[2] == sub.path):
+            return None, 'embedded object not read'
+        lit = tag(want) == 'agg' and want[1] == 'adt' and want[2] == sub.path and len(want[3]) == len(got[3])
+        if not lit and not (tag(want) == 'call' and want[1] == sub.path + '::new'):
+            return None, 'constructor call of the embedded object not read'
+        mapping = {} if lit else {sub.sm.new_arg(i + 1): a for i, a in enumerate(want[2])}
+
+        def variable(t_):
+            return any(tag(z) in ('arg', 'field', 'local', 'index', 'item', 'upvar') for z in subterms(t_))
+        for j, comp in enumerate(got[3]):
+            if lit:
+                exp_j = self.clean(want[3][j])
+            else:
+                init = sub.inits.get(j)
+                if init is None:
+                    return None, 'initialiser of component %d not read' % j
+                exp_j = self.clean(fold(self.prog.inline(subst(init, mapping), depth=2)))
+            untouched = tag(comp) == 'field' and comp[2] == j and not (tag(comp[1]) == 'agg')
+            if untouched:
+                if not variable(exp_j):
+                    continue          # the same constant for every parameter value: by induction the previous object holds it too
+                return False, 'component `%s` of the embedded %s is left as it was, but new() derives it as %s' % (
+                    sub.sm.fname(j), short(sub.path), show(exp_j)[:40])
+            if self.clean(comp) != exp_j:
+                return False, 'component `%s` of the embedded %s becomes %s where new() stores %s' % (sub.sm.fname(j), short(sub.path), show(comp)[:50], show(exp_j)[:50])
+        return True, ''
 
     def _is_self(self, t, me):
         """`self`, or the result of a chained mutator of the same type (they return `self`)"""
